@@ -517,7 +517,9 @@ func c02stepRestricted(reg *Registry, m *c02model, name string, ops []int) {
 		case 4:
 			// the reader yields nothing although the descriptor describes the blob
 			content = nil
-			digOK, sizeOK = false, false
+			if len(u.blobs[bi]) > 0 { // (in sym mode the blob itself may be empty)
+				digOK, sizeOK = false, false
+			}
 		case 1:
 			desc.Digest = "sha256:2222222222222222222222222222222222222222222222222222222222222222"
 			digOK = false
